@@ -46,7 +46,7 @@ var tokRe = regexp.MustCompile(`\{[^{}:]*:([^{}]*)\}`)
 func reTable(pat string) string {
 	m := map[string]string{}
 	for _, sm := range tokRe.FindAllStringSubmatch(pat, -1) {
-		if _, err := regexp.Compile("(?:" + sm[1] + ")"); err == nil {
+		if _, err := regexp.Compile(sm[1]); err == nil { // the rule on its own: "a)|(b" is not a regular expression
 			m[sm[1]] = "1"
 		} else {
 			m[sm[1]] = "0"
@@ -56,7 +56,7 @@ func reTable(pat string) string {
 }
 
 func compiles(rule string) bool {
-	_, err := regexp.Compile("(?:" + rule + ")")
+	_, err := regexp.Compile(rule)
 	return err == nil
 }
 
